@@ -1,4 +1,4 @@
-From Tab Require Export Run.Glue Model.Html Spec.HtmlTok Proofs.HtmlProofs.
+From Tab Require Export Run.Glue Model.Html Spec.HtmlTok Proofs.HtmlProofs Run.TplRun.
 From Tab Require Export Model.HtmlWrap Spec.HtmlWrapSpec Proofs.HtmlWrapProofs.
 
 (* what one Render() call was seen to do: the bytes and the row numbers the
@@ -68,7 +68,8 @@ Inductive c06_case :=
 | CRenders (v : view) (rs : list c06_render) (self : C06_selfcheck v rs = true)
 | CDecode (must : bool) (raw go : list N) (self : C06_decode_agrees must raw go = true)
 | CBoth (a b : c06_case)    (* two tables that share row objects, both rendered *)
-| CHist (ops : list hop) (obs : list c06_obs).
+| CHist (ops : list hop) (obs : list c06_obs)
+| CTpl (t : list tnode).   (* the template as found in the source of the repository under test (harness/htmltpl.go) *)
    (* a history over several tables and several long-lived wrappers (wrap, by-value
       copy, Table field re-assigned, fields / generator set again, tables built
       further, failed renders) and what every HRender of it was seen to produce *)
@@ -99,6 +100,7 @@ Fixpoint C06_case (c : c06_case) : N :=
   | CDecode _ _ _ _ => 0%N
   | CBoth a b => N.lor (C06_case a) (C06_case b)
   | CHist ops obs => C06_hist_codes (hspec_renders ops) (h_outputs ops) obs
+  | CTpl t => tpl_case t       (* it must be the tree c06_template_is_model was proved for *)
   end.
 
 (* text-only cell *)
@@ -110,4 +112,5 @@ Fixpoint C06_model (c : c06_case) : list (res (list N * list nat)) :=
   | CDecode _ _ _ _ => []
   | CBoth a b => C06_model a ++ C06_model b
   | CHist ops _ => h_outputs ops
+  | CTpl _ => []
   end.
